@@ -30,36 +30,47 @@ func vScribble(l *Line) {
 	}
 }
 
-// VerifC15Copies: every handler invocation (internal, foreground, background)
-// gets a line equal to the dispatched event and sharing no mutable storage with
-// the line of any other invocation or with the original.
-func VerifC15Copies() {
-	nargs := vLen("nargs", 0, vParam("A", 3))
+// vC15Line builds the d-th dispatched line: symbolic nick, raw text, arguments and tags.
+func vC15Line(d string) *Line {
+	nargs := vLen("nargs"+d, 0, vParam("A", 3))
 	if nargs == vParam("A", 3) && vParam("A15", 0) == 1 {
 		nargs = 15
 	}
-	line := &Line{Cmd: "EV", Nick: vStr("nick", 1), Raw: vStr("raw", 2)}
+	line := &Line{Cmd: "EV", Nick: vStr("nick"+d, 1), Raw: vStr("raw"+d, 2)}
 	for i := 0; i < nargs; i++ {
-		line.Args = append(line.Args, vStr("arg"+string([]byte{byte('a' + i)}), vLen("arglen"+string([]byte{byte('a' + i)}), 0, 2)))
+		line.Args = append(line.Args, vStr("arg"+d+string([]byte{byte('a' + i)}), vLen("arglen"+d+string([]byte{byte('a' + i)}), 0, 2)))
 	}
-	switch vLen("tags", 0, 3) {
+	switch vLen("tags"+d, 0, 3) {
 	case 1:
 		line.Tags = map[string]string{}
 	case 2:
-		line.Tags = map[string]string{"k": vStr("tv", 1)}
+		line.Tags = map[string]string{"k": vStr("tv"+d, 1)}
 	case 3:
-		k2 := vStr("tk", 1)
+		k2 := vStr("tk"+d, 1)
 		vAssume(k2[0] != 'k')
-		line.Tags = map[string]string{"k": vStr("tv", 1), k2: vStr("tv2", 1)}
+		line.Tags = map[string]string{"k": vStr("tv"+d, 1), k2: vStr("tv2"+d, 1)}
 	}
-	pristine := vCloneLine(line)
+	return line
+}
+
+// VerifC15Copies: every handler invocation (internal, foreground, background)
+// gets a line equal to the dispatched event and sharing no mutable storage with
+// the line of any other invocation - of the same event or of a later one - or
+// with the original. Handlers keep their line and overwrite every mutable part
+// of it, on entry and again after they have returned (the worker-goroutine
+// pattern the documentation suggests for slow handlers).
+func VerifC15Copies() {
 	conn := vNewConn(false)
-	var seen []*Line
+	var seen []*Line  // the lines themselves (kept and edited by the handlers)
+	var entry []*Line // shallow snapshots taken on entry: same Args backing array and Tags map as handed over
+	var pristine *Line
 	var mu sync.Mutex
 	h := func(c *Conn, l *Line) {
 		mu.Lock()
 		defer mu.Unlock()
 		vAssert(vSameLine(l, pristine), "equal-on-entry")
+		e := *l
+		entry = append(entry, &e)
 		seen = append(seen, l)
 		vScribble(l)
 	}
@@ -73,15 +84,33 @@ func VerifC15Copies() {
 	for i := 0; i < nbg; i++ {
 		conn.HandleBG("EV", HandlerFunc(h))
 	}
-	conn.dispatch(line)
-	vRunPending()
-	vAssert(len(seen) == nint+nfg+nbg, "each-handler-invoked-once")
+	nd := vParam("D", 1)
+	var originals []*Line
+	for d := 0; d < nd; d++ {
+		line := vC15Line(string([]byte{byte('0' + d)}))
+		pristine = vCloneLine(line)
+		originals = append(originals, line)
+		conn.dispatch(line)
+		vRunPending()
+		vAssert(vSameLine(line, pristine), "original-unchanged")
+		// the handlers have returned; whoever kept a line edits it again
+		mu.Lock()
+		for _, l := range seen {
+			vScribble(l)
+		}
+		mu.Unlock()
+	}
+	vAssert(len(seen) == nd*(nint+nfg+nbg), "each-handler-invoked-once")
 	for i := range seen {
-		vAssert(!vSharesStorage(seen[i], line), "private-from-original")
+		for _, o := range originals {
+			vAssert(!vSharesStorage(entry[i], o), "private-from-original")
+			vAssert(!vSharesStorage(seen[i], o), "private-from-original")
+		}
 		for j := 0; j < i; j++ {
+			vAssert(seen[i] != seen[j], "private-from-each-other")
+			vAssert(!vSharesStorage(entry[i], entry[j]), "private-from-each-other")
 			vAssert(!vSharesStorage(seen[i], seen[j]), "private-from-each-other")
 		}
 	}
-	vAssert(vSameLine(line, pristine), "original-unchanged")
 	vReach("end")
 }
